@@ -346,7 +346,19 @@ pub fn native(rng: &mut Rng, depth: usize) -> Native {
             let d = rng.below(7) as u32;
             Native::F64(decimal_string(k, d).parse().unwrap())
         }
-        5 => Native::Unit,
+        5 => {
+            if rng.chance(1, 2) {
+                // a short decimal that is NOT exactly representable in binary, as f32 (alone or inside containers)
+                let d = 1 + rng.below(3) as u32;
+                let mut k = rng.below(200_000) as i64 - 100_000;
+                if k % 10 == 0 {
+                    k += 3;
+                }
+                Native::F32(decimal_string(k, d).parse().unwrap())
+            } else {
+                Native::Unit
+            }
+        }
         6 => Native::OptNone,
         7 => Native::OptSome(rng.next() as i32),
         8 => Native::VecI((0..rng.below(5)).map(|_| rng.next() as i64).collect()),
